@@ -165,9 +165,10 @@ impl StorageEngine {
     /// Maximum allowed byte length for a knowledge graph name.
     pub const MAX_KG_NAME_BYTES: usize = 128;
 
-    /// Create a new knowledge graph
-    pub fn create_knowledge_graph(&self, name: &str) -> StorageResult<()> {
-        let start = Instant::now();
+    /// The checks `create_knowledge_graph` makes before it creates anything, without side
+    /// effects: `Ok` means a create of `name` would be accepted right now. The authorization
+    /// walk of a program uses it to know whether a `.kg create` line will switch the graph.
+    pub fn check_create_knowledge_graph(&self, name: &str) -> StorageResult<()> {
         // Validate knowledge graph name
         if name.is_empty()
             || name.contains('/')
@@ -204,6 +205,18 @@ impl StorageEngine {
                 "Knowledge graph '{name}' is being dropped, cannot create"
             )));
         }
+
+
+        if self.knowledge_graphs.contains_key(name) {
+            return Err(StorageError::KnowledgeGraphExists(name.to_string()));
+        }
+        Ok(())
+    }
+
+    /// Create a new knowledge graph
+    pub fn create_knowledge_graph(&self, name: &str) -> StorageResult<()> {
+        let start = Instant::now();
+        self.check_create_knowledge_graph(name)?;
 
         // Atomic check-and-insert to prevent TOCTOU race
         use dashmap::mapref::entry::Entry;
